@@ -53,6 +53,11 @@ pub fn run(ctx: &Ctx) -> Report {
     rep.notes.push(format!("exhaustive enumeration of all terms of size ≤ {} over the small alphabet: {} terms", max_size, exhaustive));
     let n = n + terms.len();
     while terms.len() < n {
+        if rng.chance(1, 5) {
+            // results that are closures capturing several values, mentioned at different binder depths
+            terms.push(gen::closure_result(&mut rng));
+            continue;
+        }
         let k = *rng.pick(&[K::Int, K::Bytes, K::Bool, K::Data, K::Any, K::ListData, K::Str]);
         let depth = 1 + rng.below(5);
         terms.push(tg.gen(&mut rng, k, &vec![], depth));
